@@ -105,6 +105,7 @@ type sched struct {
 	depth    []lockDepth // goroutines inside a mutex critical section of the library (autoyield builds)
 	autoCount, autoStride int
 	hookCount, hookStride int
+	parked   []uint64 // sorted ids of goroutines that have reached a scheduling point (stride runs only)
 
 	// scheduler-goroutine private
 	cfg   Config
@@ -310,15 +311,50 @@ func Yield(site string, key int) {
 	if s.hookStride > 1 {
 		// very large workloads thin the hand-placed scheduling points too (knob
 		// "hook.stride"); one task runs at a time, so the counter follows the schedule
+		gid := goid()
 		s.mu.lock()
 		s.hookCount++
 		skip := s.hookCount%s.hookStride != 0
+		if s.firstPoint(gid) {
+			// a goroutine runs beside its creator until it parks for the first time:
+			// its first scheduling point is never thinned away
+			skip = false
+		}
 		s.mu.unlock()
 		if skip {
 			return
 		}
 	}
 	s.park(site, key, 0)
+}
+
+// firstPoint reports (and remembers) whether gid reaches a scheduling point for
+// the first time.  Caller holds s.mu.  Goroutine ids grow, so the sorted slice is
+// appended to almost always.
+//
+//go:norace
+func (s *sched) firstPoint(gid uint64) bool {
+	n := len(s.parked)
+	if n == 0 || s.parked[n-1] < gid {
+		s.parked = append(s.parked, gid)
+		return true
+	}
+	lo, hi := 0, n
+	for lo < hi {
+		m := (lo + hi) / 2
+		if s.parked[m] < gid {
+			lo = m + 1
+		} else {
+			hi = m
+		}
+	}
+	if lo < n && s.parked[lo] == gid {
+		return false
+	}
+	s.parked = append(s.parked, 0)
+	copy(s.parked[lo+1:], s.parked[lo:])
+	s.parked[lo] = gid
+	return true
 }
 
 // Acquire parks until the scheduler grants the simulated lock id to this
@@ -414,6 +450,9 @@ func AutoYield(site string, key int) {
 	// task runs at a time, so the counter is a function of the schedule
 	s.autoCount++
 	skip := s.autoStride > 1 && s.autoCount%s.autoStride != 0
+	if (s.autoStride > 1 || s.hookStride > 1) && s.firstPoint(gid) {
+		skip = false
+	}
 	s.mu.unlock()
 	if held || skip {
 		return
